@@ -188,10 +188,11 @@ func (c *CodeBuilder) emitClearReg(m lexicalScope) {
 }
 
 // PushCloseAction emits a PushCloseStack instruction and updates the current
-// lexical context accordingly
-func (c *CodeBuilder) PushCloseAction(reg Register) {
+// lexical context accordingly.  The instruction can fail at runtime (when the
+// value has no __close metamethod), so it carries a line.
+func (c *CodeBuilder) PushCloseAction(reg Register, line int) {
 	c.context.addHeight(1)
-	c.EmitNoLine(PushCloseStack{Src: reg})
+	c.Emit(PushCloseStack{Src: reg}, line)
 }
 
 // HasPendingCloseActions returns true if there are close actions in the current
